@@ -8,6 +8,7 @@ import (
 	"go/token"
 	"go/types"
 	"sort"
+	"strings"
 )
 
 func (vc *VC) curFrame() *frame { return vc.frames[len(vc.frames)-1] }
@@ -24,6 +25,9 @@ func (vc *VC) execBlock(st *State, list []ast.Stmt) *State {
 }
 
 func (vc *VC) exec(st *State, s ast.Stmt, label string) *State {
+	if s.Pos().IsValid() {
+		vc.curPos = s.Pos()
+	}
 	switch x := s.(type) {
 	case *ast.BlockStmt:
 		return vc.execBlock(st, x.List)
@@ -672,7 +676,17 @@ func (vc *VC) execLoop(st *State, node ast.Node, label string, assigned []types.
 			st.vars[o] = vc.havocVal(cur, o.Type(), o.Name())
 		}
 	}
+	lockPre := map[string]string{}
 	for _, m := range mods {
+		if isLockHeap(m) {
+			// built-in invariant: an iteration leaves the lock state as it found it (checked below)
+			srt := ArrSort(SRef, SBool)
+			if strings.HasPrefix(m, "any") {
+				srt = SBool
+			}
+			lockPre[m] = vc.heapGet(st, m, srt)
+			continue
+		}
 		vc.havocHeap(st, m)
 	}
 	if afterHavoc != nil {
@@ -703,6 +717,17 @@ func (vc *VC) execLoop(st *State, node ast.Node, label string, assigned []types.
 	if end != nil {
 		// 6. invariant preserved, variant decreases
 		vc.checkInvariants(end, lc, "inv.keep", entry)
+		if len(lockPre) > 0 {
+			var cs []string
+			for _, m := range sortedKeys(boolKeys(lockPre)) {
+				srt := ArrSort(SRef, SBool)
+				if strings.HasPrefix(m, "any") {
+					srt = SBool
+				}
+				cs = append(cs, eq(vc.heapGet(end, m, srt), lockPre[m]))
+			}
+			vc.oblige(end, "lock", fmt.Sprintf("loop%d_balanced", lc.ord), node.Pos(), and(cs...), "each loop iteration releases the locks it takes")
+		}
 		if len(v0) > 0 {
 			v1 := vc.variant(end, lc, entry)
 			vc.oblige(end, "decreases", fmt.Sprintf("loop%d", lc.ord), node.Pos(), lexLess(v1, v0), "loop variant decreases and is bounded below")
@@ -1016,4 +1041,12 @@ func loopBodyPos(n ast.Node) token.Pos {
 		return x.Body.Lbrace + 1
 	}
 	return n.Pos()
+}
+
+func boolKeys(m map[string]string) map[string]bool {
+	o := map[string]bool{}
+	for k := range m {
+		o[k] = true
+	}
+	return o
 }
